@@ -158,4 +158,179 @@ theorem readEntries_writes (sd : Disk.Side) (bat : List Nat) (dir : Str) (entrie
               · simp only [Bool.or_eq_true, not_or] at h47; simpa using h47.2
           · exact Or.inr h
 
+/-- a path the disk extractor may write: the destination, a `sideN` directory, one component
+    without '/' and without NUL -/
+def DiskWritable (target : Str) (path : Str) : Prop :=
+  ∃ k f, path = pathJoin (pathJoin target (Tape.str "side" ++ digits k)) f ∧ f.contains 47 = false ∧ f.contains 0 = false
+
+theorem readSides_writes (target : Str) : ∀ (sides : List Disk.Side) (i : Nat) (st : Disk.RdState),
+    (∀ w ∈ st.writes, DiskWritable target w.1) →
+    ∀ w ∈ (Disk.readSides (some target) sides i st).1.writes, DiskWritable target w.1 := by
+  intro sides
+  induction sides with
+  | nil => intro i st h w hw; simp only [Disk.readSides] at hw; exact h w hw
+  | cons sd rest ih =>
+    intro i st h w hw
+    simp only [Disk.readSides, Option.map_some] at hw
+    cases hb : Disk.getBat sd with
+    | error e => rw [hb] at hw; exact h w hw
+    | ok bat =>
+      rw [hb] at hw
+      dsimp only at hw
+      cases hl : Disk.listFiles sd with
+      | error e => rw [hl] at hw; exact h w hw
+      | ok entries =>
+        rw [hl] at hw
+        dsimp only at hw
+        have hside : ∀ w' ∈ (Disk.readEntries sd bat (some (pathJoin target (Tape.str "side" ++ digits i))) entries
+            { l := Disk.onBeginOfSide st.l i, mkdirs := st.mkdirs ++ [pathJoin target (Tape.str "side" ++ digits i)], writes := st.writes }).1.writes,
+            DiskWritable target w'.1 := by
+          intro w' hw'
+          rcases readEntries_writes sd bat _ entries _ w' hw' with h1 | ⟨f, hf, h47, h0⟩
+          · exact h w' h1
+          · exact ⟨i, f, hf, h47, h0⟩
+        generalize hr : Disk.readEntries sd bat (some (pathJoin target (Tape.str "side" ++ digits i))) entries
+            { l := Disk.onBeginOfSide st.l i, mkdirs := st.mkdirs ++ [pathJoin target (Tape.str "side" ++ digits i)], writes := st.writes } = r at hw hside
+        obtain ⟨st', oe⟩ := r
+        cases oe with
+        | some e => exact hside w hw
+        | none =>
+          dsimp only at hw hside
+          exact ih (i + 1) { st' with l := Disk.onEndOfSide st'.l (Disk.computeUsage bat) } hside w hw
+
+/-- **C18 (disk confinement)**: whatever the bytes of the image — any table, any catalog, any names —
+    every path `--extract` writes is `destination/sideN/<one component without '/' and NUL>` -/
+theorem disk_confined (fl : Disk.Flavour) (verbose : Bool) (archive : Str) (into : Option Str) (raw : Bytes) :
+    ∀ w ∈ (Disk.extract fl verbose archive into raw).writes, DiskWritable (Tape.targetDirOf archive into) w.1 := by
+  intro w hw
+  unfold Disk.extract at hw
+  cases hl : Disk.load fl raw with
+  | error e => rw [hl] at hw; simp at hw
+  | ok img =>
+    rw [hl] at hw
+    dsimp only at hw
+    have hfin : ∀ (r : Disk.RdState × Option PyErr), (Disk.finishRead r).writes = r.1.writes := by
+      intro r; obtain ⟨s, o⟩ := r; cases o <;> rfl
+    rw [hfin] at hw
+    exact readSides_writes _ img 0 _ (by intro w' hw'; simp at hw') w hw
+
+/-- **C18 (listing is read-only)**: whatever the bytes of the image, `--list` writes nothing and
+    creates no directory -/
+theorem disk_list_readonly (fl : Disk.Flavour) (verbose : Bool) (raw : Bytes) :
+    (Disk.list fl verbose raw).writes = [] ∧ (Disk.list fl verbose raw).mkdirs = [] := by
+  have hent : ∀ (sd : Disk.Side) (bat : List Nat) (entries : List Disk.Entry) (st : Disk.RdState),
+      (Disk.readEntries sd bat none entries st).1.writes = st.writes ∧ (Disk.readEntries sd bat none entries st).1.mkdirs = st.mkdirs := by
+    intro sd bat entries
+    induction entries with
+    | nil => intro st; exact ⟨rfl, rfl⟩
+    | cons e rest ih =>
+      intro st
+      simp only [Disk.readEntries]
+      split
+      · exact ⟨rfl, rfl⟩
+      · exact ih _
+  have hsides : ∀ (sides : List Disk.Side) (i : Nat) (st : Disk.RdState),
+      (Disk.readSides none sides i st).1.writes = st.writes ∧ (Disk.readSides none sides i st).1.mkdirs = st.mkdirs := by
+    intro sides
+    induction sides with
+    | nil => intro i st; exact ⟨rfl, rfl⟩
+    | cons sd rest ih =>
+      intro i st
+      simp only [Disk.readSides, Option.map_none]
+      cases Disk.getBat sd with
+      | error e => exact ⟨rfl, rfl⟩
+      | ok bat =>
+        dsimp only
+        cases Disk.listFiles sd with
+        | error e => exact ⟨rfl, rfl⟩
+        | ok entries =>
+          dsimp only
+          have he := hent sd bat entries { l := Disk.onBeginOfSide st.l i, mkdirs := st.mkdirs, writes := st.writes }
+          generalize Disk.readEntries sd bat none entries { l := Disk.onBeginOfSide st.l i, mkdirs := st.mkdirs, writes := st.writes } = r at he
+          obtain ⟨st', oe⟩ := r
+          cases oe with
+          | some e => exact he
+          | none =>
+            have := ih (i + 1) { st' with l := Disk.onEndOfSide st'.l (Disk.computeUsage bat) }
+            exact ⟨this.1.trans he.1, this.2.trans he.2⟩
+  unfold Disk.list
+  cases Disk.load fl raw with
+  | error e => exact ⟨rfl, rfl⟩
+  | ok img =>
+    dsimp only
+    have := hsides img 0 { l := { processing := 0, verbose := verbose } }
+    generalize Disk.readSides none img 0 { l := { processing := 0, verbose := verbose } } = r at this
+    obtain ⟨s, o⟩ := r
+    cases o <;> exact this
+
+theorem readEntries_mkdirs (sd : Disk.Side) (bat : List Nat) (sp : Option Str) (entries : List Disk.Entry) : ∀ (st : Disk.RdState),
+    (Disk.readEntries sd bat sp entries st).1.mkdirs = st.mkdirs := by
+  induction entries with
+  | nil => intro st; rfl
+  | cons e rest ih =>
+    intro st
+    simp only [Disk.readEntries]
+    split
+    · rfl
+    · cases sp with
+      | none => exact ih _
+      | some dir =>
+        dsimp only
+        split
+        · rfl
+        · split
+          · rfl
+          · exact ih _
+
+/-- **C18 (directories)**: whatever the bytes of the image, the only directories `--extract` creates
+    are `destination/sideN` -/
+theorem disk_mkdirs_confined (fl : Disk.Flavour) (verbose : Bool) (archive : Str) (into : Option Str) (raw : Bytes) :
+    ∀ d ∈ (Disk.extract fl verbose archive into raw).mkdirs, ∃ k, d = pathJoin (Tape.targetDirOf archive into) (Tape.str "side" ++ digits k) := by
+  have hsides : ∀ (target : Str) (sides : List Disk.Side) (i : Nat) (st : Disk.RdState),
+      (∀ d ∈ st.mkdirs, ∃ k, d = pathJoin target (Tape.str "side" ++ digits k)) →
+      ∀ d ∈ (Disk.readSides (some target) sides i st).1.mkdirs, ∃ k, d = pathJoin target (Tape.str "side" ++ digits k) := by
+    intro target sides
+    induction sides with
+    | nil => intro i st h d hd; simp only [Disk.readSides] at hd; exact h d hd
+    | cons sd rest ih =>
+      intro i st h d hd
+      have hnew : ∀ d ∈ st.mkdirs ++ [pathJoin target (Tape.str "side" ++ digits i)], ∃ k, d = pathJoin target (Tape.str "side" ++ digits k) := by
+        intro d hd
+        rcases List.mem_append.mp hd with h1 | h1
+        · exact h d h1
+        · simp at h1; exact ⟨i, h1⟩
+      simp only [Disk.readSides, Option.map_some] at hd
+      cases hb : Disk.getBat sd with
+      | error e => rw [hb] at hd; exact hnew d hd
+      | ok bat =>
+        rw [hb] at hd
+        dsimp only at hd
+        cases hl : Disk.listFiles sd with
+        | error e => rw [hl] at hd; exact hnew d hd
+        | ok entries =>
+          rw [hl] at hd
+          dsimp only at hd
+          have hm := readEntries_mkdirs sd bat (some (pathJoin target (Tape.str "side" ++ digits i))) entries
+            { l := Disk.onBeginOfSide st.l i, mkdirs := st.mkdirs ++ [pathJoin target (Tape.str "side" ++ digits i)], writes := st.writes }
+          generalize Disk.readEntries sd bat (some (pathJoin target (Tape.str "side" ++ digits i))) entries
+            { l := Disk.onBeginOfSide st.l i, mkdirs := st.mkdirs ++ [pathJoin target (Tape.str "side" ++ digits i)], writes := st.writes } = r at hd hm
+          obtain ⟨st', oe⟩ := r
+          dsimp only at hm
+          cases oe with
+          | some e => dsimp only at hd; rw [hm] at hd; exact hnew d hd
+          | none =>
+            dsimp only at hd
+            exact ih (i + 1) { st' with l := Disk.onEndOfSide st'.l (Disk.computeUsage bat) } (by dsimp only; rw [hm]; exact hnew) d hd
+  intro d hd
+  unfold Disk.extract at hd
+  cases hl : Disk.load fl raw with
+  | error e => rw [hl] at hd; simp at hd
+  | ok img =>
+    rw [hl] at hd
+    dsimp only at hd
+    have hfin : ∀ (r : Disk.RdState × Option PyErr), (Disk.finishRead r).mkdirs = r.1.mkdirs := by
+      intro r; obtain ⟨s, o⟩ := r; cases o <;> rfl
+    rw [hfin] at hd
+    exact hsides _ img 0 _ (by intro d' hd'; simp at hd') d hd
+
 end Moto.C18
